@@ -55,7 +55,11 @@ async fn drain() {
 }
 
 async fn http_query(tick: Option<i128>) -> Result<(bool, String), String> {
-    let mut s = tokio::net::TcpStream::connect("127.0.0.1:3080").await.map_err(|e| e.to_string())?;
+    http_query_on(3080, tick).await
+}
+
+async fn http_query_on(port: u16, tick: Option<i128>) -> Result<(bool, String), String> {
+    let mut s = tokio::net::TcpStream::connect(("127.0.0.1", port)).await.map_err(|e| e.to_string())?;
     let mut req = "GET /provision HTTP/1.1\r\nHost: localhost\r\nMetadata: true\r\nConnection: close\r\n".to_string();
     if let Some(t) = tick {
         req.push_str(&format!("x-ms-azure-time_tick: {t}\r\n"));
@@ -161,6 +165,13 @@ fn run(kvariant: &[Op], init_flags: u8, prefix: &[usize], http_every_step: bool,
         let prov = shared.get_provision_shared_state();
         let server = ProxyServer::new(3080, &shared);
         tokio::spawn(async move { server.start().await });
+        // a second listener of the same server whose key keeper handle has no actor behind it (guarded hook): the secure
+        // channel state cannot be read there, which must not count as "latched"
+        if http_every_step {
+            let shared2 = shared.verif_with_key_keeper(gpa_harness::shared_state::key_keeper_wrapper::KeyKeeperSharedState::verif_without_actor());
+            let server2 = ProxyServer::new(3081, &shared2);
+            tokio::spawn(async move { server2.start().await });
+        }
         // wait for the listener, then undo its own readiness report so that every execution starts from "nothing reported"
         let mut up = false;
         for _ in 0..2000 {
@@ -318,6 +329,21 @@ fn run(kvariant: &[Op], init_flags: u8, prefix: &[usize], http_every_step: bool,
                     queries.push(("stamp-plus-999ns", Some(stamp_now + 999)));
                     queries.push(("stamp-plus-999999ns", Some(stamp_now + 999_999)));
                 }
+                if !latched || true {
+                    // (the channel state is unreadable on the second listener whatever it is on the first)
+                    match http_query_on(3081, Some(i128::MAX / 2)).await {
+                        Err(e) => {
+                            if steps > 3 {
+                                problems.push(("provision-query-failed:listener-without-key-keeper".into(), format!("{what}: {e}")));
+                            }
+                        }
+                        Ok((finished, _)) => {
+                            if finished {
+                                problems.push(("finished-reported-too-early:channel-state-unreadable".into(), format!("{what}: /provision on a listener whose key keeper state cannot be read (tick far in the future) reports finished=true; readiness {:?}, deadline handler ran: {deadline_passed}", model)));
+                            }
+                        }
+                    }
+                }
                 for (label, q) in queries {
                     match http_query(q).await {
                         Err(e) => problems.push(("provision-query-failed".into(), format!("{what}: query {label}: {e}"))),
@@ -352,6 +378,18 @@ fn run(kvariant: &[Op], init_flags: u8, prefix: &[usize], http_every_step: bool,
             }
         }
         drain().await;
+        // the real client of the query (`--status --wait`): created now, i.e. it names an instant after everything that
+        // happened in this execution; it polls every 100 ms until its wait is over (the wait is measured against the
+        // process's uptime, so it is given uptime + 350 ms): it may report finished only if the channel is latched
+        if http_every_step && prefix.is_empty() {
+            let latched = provision::get_provision_state_internal(shared.get_provision_shared_state(), shared.get_agent_status_shared_state(), shared.get_key_keeper_shared_state()).await.is_secure_channel_latched();
+            let wait = Duration::from_millis(gpa_harness::common::helpers::get_elapsed_time_in_millisec() as u64 + 350);
+            let q = provision::provision_query::ProvisionQuery::new(3080, Some(wait));
+            let st = q.get_provision_status_wait().await;
+            if st.finished && !latched {
+                problems.push(("finished-reported-too-early:waiting-client-query".into(), format!("a waiting status query (ProvisionQuery, wait 350 ms) created after the last event of the execution reports finished=true although nothing finished at or after the instant it names and the channel is not latched; readiness {:?}, stamp in force: {stamp_exists}", model)));
+            }
+        }
         let fin = format!("flags={:?} tick>0={} model={:?}", prov.get_state().await.map(|f| f.bits()), last_tick > 0, model);
         RunOut { points, problems, steps, final_state: fin, stamps }
     });
@@ -420,7 +458,7 @@ fn main() {
         res.cov("exhaustive", !capped);
         res.cov("preemption_bound", bound as u64);
         res.cov("workers", n as u64);
-        res.cov("rule", format!("threads R=[redirector_ready], L=[listener_started], K in 6 op sequences over key_latched / key_latch_ready_state_reset / provision_timeup, from the empty readiness set and (K variants [reset, latched] and [latched, reset]) from {} non-initial readiness sets, and 4 K variants with the secure channel already latched (initial_flags bit 7), 3 with a stale status.tag.tmp of an earlier run in the directory (bit 6); every schedule with <= {bound} preemptions, one actor message per step; after every step: provision flags, finished tick and error text via the public getters; for schedules with <= 1 preemption also six real /provision HTTP queries (tick absent, 0, negative, far future, boundary before the step, first boundary, and the stamp itself -1 / +1 / +999 / +999999 ns); inotify on the tag directory", if thorough { 7 } else { 3 }));
+        res.cov("rule", format!("threads R=[redirector_ready], L=[listener_started], K in 6 op sequences over key_latched / key_latch_ready_state_reset / provision_timeup, from the empty readiness set and (K variants [reset, latched] and [latched, reset]) from {} non-initial readiness sets, and 4 K variants with the secure channel already latched (initial_flags bit 7), 3 with a stale status.tag.tmp of an earlier run in the directory (bit 6); every schedule with <= {bound} preemptions, one actor message per step; after every step: provision flags, finished tick and error text via the public getters; for schedules with <= 1 preemption also six real /provision HTTP queries (tick absent, 0, negative, far future, boundary before the step, first boundary, and the stamp itself -1 / +1 / +999 / +999999 ns); on a second listener whose key keeper handle has no actor (channel state unreadable) a far-future tick is never answered finished; after the default schedule of each configuration the real waiting client (ProvisionQuery, 4 polls) created after the last event; inotify on the tag directory", if thorough { 7 } else { 3 }));
         std::process::exit(res.finish());
     }
     let (wi, wn) = me.unwrap();
